@@ -27,6 +27,7 @@ type facts struct {
 	early                          map[string]bool
 	xPrefix, xMatch, all, any      string
 	defaultAll                     bool
+	xmatchBytes                    bool
 	cmpDeep                        bool
 	wordwise                       bool
 	bindRefuses, unbindRefuses     bool
@@ -253,6 +254,21 @@ func bindingFacts(c *trlib.Ctx, f *facts) {
 	if fd := trlib.FuncDecl(file, "NewBinding"); fd != nil {
 		ast.Inspect(fd.Body, func(n ast.Node) bool {
 			switch x := n.(type) {
+			case *ast.TypeAssertExpr:
+				// xmatch.([]byte) followed by xmatch = string(raw): a long string of the 0-9-1 dialect is read like a string
+				if trlib.ExprString(x.X) == "xmatch" && x.Type != nil && trlib.ExprString(x.Type) == "[]byte" {
+					f.xmatchBytes = contains(fd.Body, func(y ast.Node) bool {
+						as, ok := y.(*ast.AssignStmt)
+						if !ok || len(as.Lhs) != 1 || len(as.Rhs) != 1 || trlib.ExprString(as.Lhs[0]) != "xmatch" {
+							return false
+						}
+						cl, ok := as.Rhs[0].(*ast.CallExpr)
+						return ok && trlib.ExprString(cl.Fun) == "string"
+					})
+					if !f.xmatchBytes {
+						f.bad("NewBinding: xmatch.([]byte) without xmatch = string(..)")
+					}
+				}
 			case *ast.IndexExpr:
 				if s, ok := unquote(x.Index); ok && trlib.ExprString(x.X) == "(*arguments)" {
 					f.xMatch = s
@@ -458,7 +474,7 @@ func genRouting(c *trlib.Ctx) error {
 	fmt.Fprintf(&sb, "  c_early_direct := %s; c_early_fanout := %s; c_early_topic := %s; c_early_headers := %s;\n",
 		trlib.CoqBool(f.early["ExTypeDirect"]), trlib.CoqBool(f.early["ExTypeFanout"]), trlib.CoqBool(f.early["ExTypeTopic"]), trlib.CoqBool(f.early["ExTypeHeaders"]))
 	fmt.Fprintf(&sb, "  c_x_prefix := %s;\n  c_x_match := %s;\n  c_all := %s; c_any := %s;\n", coqBytes(f.xPrefix), coqBytes(f.xMatch), coqBytes(f.all), coqBytes(f.any))
-	fmt.Fprintf(&sb, "  c_default_all := %s;\n  c_cmp := %s;\n  c_topic_wordwise := %s;\n", trlib.CoqBool(f.defaultAll), cmp, trlib.CoqBool(f.wordwise))
+	fmt.Fprintf(&sb, "  c_default_all := %s;\n  c_xmatch_bytes := %s;\n  c_cmp := %s;\n  c_topic_wordwise := %s;\n", trlib.CoqBool(f.defaultAll), trlib.CoqBool(f.xmatchBytes), cmp, trlib.CoqBool(f.wordwise))
 	fmt.Fprintf(&sb, "  c_bind_refuses_default := %s;\n  c_unbind_refuses_default := %s;\n  c_default_binding_on_declare := %s\n|}.\n\n",
 		trlib.CoqBool(f.bindRefuses), trlib.CoqBool(f.unbindRefuses), trlib.CoqBool(f.defaultBinding))
 	sb.WriteString("(* exchangeTypeIDAliasMap / exchangeTypeAliasIDMap *)\nDefinition gen_type_id_alias : list (N * bytes) :=\n  [")
